@@ -11,10 +11,16 @@ def render_conf(conf, kinds=None):
     """conf: {name: {named, liftOk, cfgRep, looks:[names]}} -> files list.
     Named definitions go to main.circom, the others to inc.circom (included by main)."""
     def tpl(name, c):
-        params = "n, n" if not c["liftOk"] else "n"
+        # a definition that does not lift: repeated parameter names (the first stage fails, nothing else is reported), or - when it
+        # also carries a CFG-stage warning - a read before the definition (SSA conversion fails AFTER the shadowing warning of the
+        # first stage has been produced: both must reach the user)
+        late_failure = (not c["liftOk"]) and c["cfgRep"]
+        params = "n, n" if (not c["liftOk"] and not late_failure) else "n"
         body = ["  signal input a;", "  signal output o;"]
         if c["cfgRep"]:
             body += ["  var s = 1;", "  { var s = 2; }"]
+        if late_failure:
+            body += ["  var q = r + 1;", "  var r = 2;"]
         for e in sorted(c["looks"]):
             body += ["  component c%s = %s(1);" % (e, e), "  c%s.a <== a;" % e]
         body += ["  o <-- a + n;"]
